@@ -10,6 +10,10 @@ def M(name, props, rules, file, old, new, expect=None, more=None):
         edits += more
     MUTANTS.append({"name": name, "props": props, "rules": rules, "edits": edits, "expect": expect})
 
+def REVERT(name, props, rules, patch, expect=None):
+    """Regression mutant: the reverse of a genuine-defect repair (design/fix-drafts)."""
+    MUTANTS.append({"name": name, "props": props, "rules": rules, "edits": [], "revert": "design/fix-drafts/" + patch, "expect": expect})
+
 # ---------------------------------------------------------------- C02
 M("c02-drop-ensure-in-deleteObject", ["C02"], {"C02": ["R02.1"]}, "gofakes3.go",
   """	g.log.Print(LogInfo, "DELETE:", bucket, object)
@@ -273,3 +277,59 @@ M("c07-L7-bolt-bucket-escapes-tx", ["C07"], {"C07": ["L7"]}, "backend/s3bolt/bac
 	exists = b != nil && b.Stats().KeyN >= 0
 	return exists, err
 }""")
+
+# ---------------------------------------------------------------- C11
+REVERT("f5-revert-range-overflow-fix", ["C11"], {"C11": ["R11.1"]}, "0005-fix-clip-ranges-without-overflowing-for-ends-near-th.patch")
+
+M("c11-drop-start-ge-size-guard", ["C11"], {"C11": ["R11.1"]}, "range.go",
+  """	if start < 0 || length < 0 || start >= size {""", """	if start < 0 || length < 0 {""")
+
+M("c11-bolt-slice-off-by-one", ["C11"], {"C11": ["R11.2"]}, "backend/s3bolt/schema.go",
+  """		data = data[rnge.Start : rnge.Start+rnge.Length]""", """		data = data[rnge.Start : rnge.Start+rnge.Length-1]""")
+
+M("c11-afero-limit-plus-one", ["C11"], {"C11": ["R11.2"]}, "backend/s3afero/single.go",
+  """		rdr = limitReadCloser(rdr, f.Close, rnge.Length)""", """		rdr = limitReadCloser(rdr, f.Close, rnge.Length+1)""")
+
+M("c11-mem-range-on-wrong-size", ["C11"], {"C11": ["R11.2"]}, "backend/s3mem/bucket.go",
+  """		rnge, err = rangeRequest.Range(sz)""", """		rnge, err = rangeRequest.Range(sz + 1)""")
+
+M("c11-content-length-whole-on-range", ["C11"], {"C11": ["R11.3"]}, "range.go",
+  """		w.Header().Set("Content-Length", fmt.Sprintf("%d", o.Length))""", """		w.Header().Set("Content-Length", fmt.Sprintf("%d", sz))""")
+
+M("c11-parse-end-error-ignored", ["C11"], {"C11": ["R11.4"]}, "range.go",
+  """			i, err := strconv.ParseInt(end, 10, 64)
+			if err != nil || o.Start > i {
+				return nil, ErrInvalidRange
+			}
+			o.End = i""", """			i, _ := strconv.ParseInt(end, 10, 64)
+			if o.Start > i {
+				return nil, ErrInvalidRange
+			}
+			o.End = i""")
+
+M("c11-negative-start-accepted", ["C11"], {"C11": ["R11.4"]}, "range.go",
+  """		if err != nil || i < 0 {
+			return nil, ErrInvalidRange
+		}
+		o.Start = i""", """		if err != nil {
+			return nil, ErrInvalidRange
+		}
+		o.Start = i""")
+
+M("c11-mem-error-of-range-swallowed", ["C11"], {"C11": ["R11.2"]}, "backend/s3mem/bucket.go",
+  """		rnge, err = rangeRequest.Range(sz)
+		if err != nil {
+			return nil, err
+		}
+""", """		rnge, err = rangeRequest.Range(sz)
+		if err != nil {
+			rnge, err = nil, nil
+		}
+""")
+
+M("c11-invalidrange-status-400", ["C11"], {"C11": ["R11.4"]}, "error.go",
+  """	case ErrInvalidRange:
+		return http.StatusRequestedRangeNotSatisfiable
+""", """	case ErrInvalidRange:
+		return http.StatusBadRequest
+""")
